@@ -2,6 +2,7 @@
 from __future__ import annotations
 
 import ast
+import itertools
 
 import z3
 
@@ -537,3 +538,73 @@ _targets_c05_with_observers = targets
 def targets():      # noqa: F811
     from . import frames
     return _targets_c05_with_observers() + [target_derived_views(), frames.target_data_set_constructors()]
+
+
+_targets_before_dataframe = targets
+
+
+def target_to_dataframe():
+    """`DataSet.to_dataframe` (what `parse` prints and what every table export starts from): the five columns, in order, hold the
+    frequencies, Re Z, Im Z, |Z| and the phase in degrees of the SAME requested subset (`masked`), the imaginary part and the phase
+    negated exactly when asked; the default headers are such that the table can be parsed back (their role is recognised by
+    `_detect_columns`: checked against the documented alias table); custom headers must be five distinct non-blank strings."""
+    from pyvc import overload as O
+    from . import dataflow as DF
+    from .dataflow import T, opaque
+    from . import c06
+
+    def run(sess: Session):
+        for masked, neg_im, neg_ph in itertools.product((False, None), (False, True), (False, True)):
+            asked = []
+
+            class Me:
+                def get_frequencies(self, masked=False):
+                    asked.append(("f", masked))
+                    return T.var(f"f[{masked}]")
+
+                def get_impedances(self, masked=False):
+                    asked.append(("Z", masked))
+                    return T.var(f"Z[{masked}]")
+            ns = {"DataFrame": lambda d: d, "abs": lambda x: abs(x), "angle": opaque("angle"), "isinstance": isinstance}
+            O.load(MOD, ["DataSet.to_dataframe"], ns)
+            out = ns["to_dataframe"](Me(), masked=masked, negative_imaginary=neg_im, negative_phase=neg_ph)
+            tag = f"[masked={masked}, negative_imaginary={neg_im}, negative_phase={neg_ph}]"
+            ok = isinstance(out, dict) and len(out) == 5
+            sess.check("post", [], z3.BoolVal(ok and all(m is masked for _, m in asked)), 0, label=f"five columns, all computed from the requested subset{tag}")
+            if not ok:
+                continue
+            cols = list(out.values())
+            Z, f = T.var(f"Z[{masked}]"), T.var(f"f[{masked}]")
+            DF.eq_check(sess, f"column 1 = frequencies{tag}", cols[0], f)
+            DF.eq_check(sess, f"column 2 = Re Z{tag}", cols[1], Z.real)
+            DF.eq_check(sess, f"column 3 = Im Z (negated iff asked){tag}", cols[2], Z.imag * (-1 if neg_im else 1))
+            DF.eq_check(sess, f"column 4 = |Z|{tag}", cols[3], abs(Z))
+            DF.eq_check(sess, f"column 5 = phase in degrees (negated iff asked){tag}", cols[4], opaque("angle")(Z, deg=True) * (-1 if neg_ph else 1))
+            heads = [h.lower() for h in out]
+            roles = []
+            for h in heads:
+                role = [r for r, al in c06.DOCUMENTED_ALIASES.items() if any(h.startswith(a) for a in sorted(al, key=len, reverse=True))]
+                roles.append(role)
+            sess.check("post", [], z3.BoolVal("frequency" in roles[0] and "real" in roles[1] and "imaginary" in roles[2]), 0, label=f"the default headers of the first three columns start with a documented alias of their role{tag}")
+        ns = {"DataFrame": lambda d: d, "abs": lambda x: abs(x), "angle": opaque("angle"), "isinstance": isinstance}
+        O.load(MOD, ["DataSet.to_dataframe"], ns)
+
+        class Me2:
+            def get_frequencies(self, masked=False):
+                return T.var("f")
+
+            def get_impedances(self, masked=False):
+                return T.var("Z")
+        for bad, exc, why in ((["a", "b", "c", "d"], ValueError, "four headers"), (["a", "b", "c", "d", " a "], ValueError, "a repeated header (after stripping)"),
+                              (["a", "b", "c", "d", 5], TypeError, "a header that is not a string"), ("abcde", TypeError, "headers that are not a list")):
+            try:
+                ns["to_dataframe"](Me2(), columns=bad)
+                refused = False
+            except exc:
+                refused = True
+            sess.check("post", [], z3.BoolVal(refused), 0, label=f"custom headers: {why} refused with {exc.__name__}")
+    return (f"{MOD}:DataSet.to_dataframe", MOD, "DataSet.to_dataframe", run)
+
+
+def targets():      # noqa: F811
+    return _targets_before_dataframe() + [target_to_dataframe()]
